@@ -749,6 +749,9 @@ class SigmaCorrelationRule(SigmaRuleBase, ProcessingItemTrackingMixin):
             "aliases": self.aliases.to_dict() if self.aliases is not None else None,
         }
 
+        if self.generate:
+            dc["generate"] = True
+
         # Serialize condition based on its type
         if self.condition is not None:
             dc["condition"] = self.condition.to_dict()
